@@ -22,7 +22,12 @@ DEEP = [
 
 
 def asserts(sc):
-    return A.free_cores(sc.db)
+    from vt.sqlsym.interp import GLOBAL_S as S, b_or, i_eq
+
+    def was_pending(k):
+        dbs = list(sc.snapshots) + [sc.db]
+        return b_or(*[i_eq(d.t['instances'].rows[k].vals['state'].v, S.code('pending')) for d in dbs])
+    return A.free_cores(sc.db, was_pending)
 
 
 def run(R):
